@@ -9,7 +9,7 @@ CHECKS = {
              "approxPhase = to o from, encode/decode identity on the as-implemented transcription; the real 32-bit functions are then driven "
              "over the same grid (embedded by x -> x*2^(32-W), where the W-bit routine is the 32-bit routine for power-of-two M) and over "
              "full-width neighbourhoods of every kind of rounding edge for M in the property's list and random M <= 2^15; every observed row "
-             "is decided by TLC against the specification (equality with the model on the grid, nearest-rounding in exact limb arithmetic at full width).",
+             "is decided by TLC against the specification (equality with the model on the grid, nearest-rounding in exact limb arithmetic at full width). A third family interleaves the calls that make up a row with calls for other message-space sizes (state kept between calls).",
         note="Trusted: TLC, the harness printing what the functions return. M = 2^31 is not representable in int32_t Msize (covered up to 2^30). "
              "Full 2^32 enumeration of phases is not done at full width; the embedding argument plus edge families stand in for it.",
         design="§6 C13"),
@@ -20,7 +20,7 @@ CHECKS = {
         text="TLC checks, for every value of the W-bit torus and a grid of layouts (W = l*Bgbit+1 and W = l*Bgbit), that the transcribed decomposition yields balanced digits "
              "recomposing within the truncation bound, and on a small buffer machine that the input is dirty only inside the add-offset/remove-offset window and restored at the end. "
              "The real routines are driven over the embedded grids (equality with the model, digit for digit) and, for 15 layouts incl. l*Bgbit = 32 and Bgbit in {1,2,16}, over full-width "
-             "carry/wrap/random families at degrees 8,16,64,1024 and through the TLWE wrapper (k = 1,2); each coefficient row (input, digits, input-after) is decided by TLC.",
+             "carry/wrap/random families at degrees 8,16,64,1024 and through the TLWE wrapper (k = 1,2); each coefficient row (input, digits, input-after) is decided by TLC. The TLWE wrapper is also driven with every pattern of identically zero polynomials into a pre-filled output buffer, all layouts back to back in one process (forward and reversed), and by four threads at once.",
         note="Trusted: TLC; harness prints what the routine leaves in memory. The 2^32 full-width enumeration is replaced by the embedding argument (exact for W >= l*Bgbit) plus edge families; "
              "default layouts (3,7),(2,10) are enumerated on the code with a stride in the quick tier.",
         design="§6 C12"),
@@ -62,7 +62,7 @@ CHECKS = {
              "(non powers of two included), and that trivial samples decrypt under every key. The real API is then exercised: lweSymEncrypt/Decrypt over n in {1,2,3,8,9,500,501,630,1024}, 20 message-space sizes, "
              "all messages for small M, noise at the decryptable maximum (M*alpha = 1/20), tiny and zero, interleaved; samples with chosen mask and error right up to the decoding radius; trivial samples; "
              "bootsSymEncrypt/Decrypt for both parameter sets; TLWE constant and polynomial messages (k = 1,2); TGSW integer and polynomial messages for four (k,l,Bgbit) and every Msize = 2^j <= Bg. "
-             "Each row (message, encoding, phase, sample when small, decryption) is decided by TLC: decryption equals the message exactly and is the nearest-message encoding of the observed phase.",
+             "Each row (message, encoding, phase, sample when small, decryption) is decided by TLC: decryption equals the message exactly and is the nearest-message encoding of the observed phase. TLWE and TGSW round trips use three keys per key object (fresh, re-generated in place, deleted and re-created), and four TGSW layouts are kept alive at once with the same message-space size used under one layout right after another.",
         note="Keys/seeds are sampled (seeded from VERIF_SEED). TLWE/TGSW run at N = 1024 only (the FFT back-ends hard-wire it). The TLWE/TGSW model-level theorem lives in RingScheme (C09).",
         design="§6 C03"),
     "C01": dict(
@@ -73,7 +73,7 @@ CHECKS = {
              "rounding and extreme output errors, and checks that every register decrypts to the plaintext interpreter's bit (Correct) and stays admissible (closure). Wrong-constant designs and a relaxed cap are rejected. "
              "The real gate API is then run, for both parameter sets in both orders in one process, on every gate x every input tuple x six kinds of admissible inputs (fresh, bootstrapped, injected error +-(1/32 - 16 sigma) "
              "in all sign patterns) plus aliased calls; each call is one event carrying the phases of all registers under the secret key, and TLC accepts the trace only if every event is a MachineP step "
-             "(sign consistent with the rounded linear combination, |output error| < 3/64, bystanders bit-identical, generator untouched) with Correct/Admissible in every state.",
+             "(sign consistent with the rounded linear combination, |output error| < 3/64, bystanders bit-identical, generator untouched) with Correct/Admissible in every state. Round-4 additions: constants (noiseless inputs) as a seventh input kind, and every gate once with operands re-randomised (same phases) so that the body of the bootstrapped combination is exactly 0 (rounded body 0, the branch a debug build asserts on).",
         note="A1/A2 are assumptions of the model, monitored on every recorded execution. Keys are sampled (VERIF_SEED). Quick: spqlios-fma optim (full), nayuki-portable optim and spqlios-fma debug (reduced); thorough: 5 back-ends x 2 builds x 3 seeds. "
              "The bit-exact reduced-size algorithm (MachineC) is covered under C04/C09.",
         design="§6 C01"),
@@ -85,7 +85,7 @@ CHECKS = {
              "Programs are produced by TLC itself (random behaviours of the model written out by Gen_MachineP) and by structured generators (long in-place chains, ripple-carry adder + comparator fed back into itself, "
              "multiplexer trees with heavy fan-out, random 8-register programs with re-loads incl. maximally noisy admissible inputs) and executed with real keys for both parameter sets; TLC validates every event as a MachineP "
              "step (so every wire of every circuit is decrypted against the plaintext interpreter), and accumulates per parameter set, gate family (binary / MUX) and input class (fresh / depth >= 10 / noisy / other) n, sum e, sum e^2, max; "
-             "acceptance: sd <= bound(1+8/sqrt(2n)), |mean| <= bound/4 + 8 bound/sqrt(n), max < 3/64, class variances pairwise within 8 sigma.",
+             "acceptance: sd <= bound(1+8/sqrt(2n)), |mean| <= bound/4 + 8 bound/sqrt(n), max < 3/64, class variances pairwise within 8 sigma. The quick tier runs one process per first-use order of the two parameter sets (80 then 128, 128 then 80); the repository's own integration programs test-addition-boot and test-long-run are built unmodified, recorded through an LD_PRELOAD shim of the gate API and validated as MachineP behaviours.",
         note="Statistical clauses are hypothesis tests with >= 8 sigma wide regions (quick: ~1500 gate outputs on spqlios-fma; thorough: five back-ends, ~10^4 outputs on the fast ones). Degradations below ~10-20 % of the bound are not detected.",
         design="§6 C02"),
     "C15": dict(
@@ -96,7 +96,7 @@ CHECKS = {
              "dirty window on its const input closes inside the call (MC_Gadget). On the real library all 14 gates (patterns none, r=a, r=b, r=c, a=b, all), tfhe_bootstrap(_woKS)(_FFT), blindRotateAndExtract(_FFT) with an "
              "arbitrary test polynomial, blindRotate_FFT, lweKeySwitch, extraction and the three external products are called; each call is an event with 62-bit content hashes of every input, of the complete cloud key "
              "(bk, bkFFT incl. Lagrange data, both key-switching keys) and parameters before and after, of the output, and a generator-state comparison. TLC requires: non-aliased inputs, keys, parameters unchanged; generator "
-             "unmoved; and the output equal to the memoised output of any earlier call with the same (operation, key, inputs) -- which makes every aliased call agree bit for bit with its non-aliased twin.",
+             "unmoved; and the output equal to the memoised output of any earlier call with the same (operation, key, inputs) -- which makes every aliased call agree bit for bit with its non-aliased twin. The TGSW-level entry points (external product, both decompositions, the FFT external product in place) are run under eight layouts incl. l = 1, l*Bgbit = 32 and k = 2 with snapshots of the TLWE input, the TGSW sample and the parameters.",
         note="Equality is decided on 62-bit hashes (collision probability negligible). Quick: 128-bit set on spqlios-fma and 80-bit set on nayuki-portable (optim); thorough: five back-ends, both sets, two debug builds.",
         design="§6 C15"),
     "C19": dict(
@@ -117,7 +117,7 @@ CHECKS = {
              "The real API is driven through call-logging sinks (a streambuf for C++ streams, fopencookie for FILE): every type, both transports, parameter values incl. the default sets' 2^-15, 2^-25, 2.44e-5, 7.18e-9 and a sweep 1e-12..0.5, "
              "extreme coefficient contents, objects alone and 2-3 back to back in one stream. TLC validates that each call is the next call of Serial!Export, that every property line parses back to exactly the object's field (reals by IEEE mantissa/exponent), "
              "that import consumes exactly the object's bytes with a good stream and yields equal fields and contents (key rows with the common maximum variance, also when the maximum sits on a digit-0 row), and that re-export is byte-identical. "
-             "A default-parameter secret key set is exported and re-imported (and its cloud part separately) and gates/decryptions under original and re-imported keys must agree bit for bit.",
+             "A default-parameter secret key set is exported and re-imported (and its cloud part separately) and gates/decryptions under original and re-imported keys must agree bit for bit. Recorded exports are tokenised from their bytes (text sections line by line, each maximal binary stretch as one run with length and leading tag) and compared with Serial!Canon of the segment grammar, so the validation does not depend on how the writer groups its calls.",
         note="Contents are compared through 62-bit hashes. Defect D1 (reals printed with %.8lf) was found by this check and repaired (fix: commit in /repo). Default-size key sets are part of the call-level trace in the thorough tier only.",
         design="§6 C05"),
     "C17": dict(
@@ -126,7 +126,7 @@ CHECKS = {
         text="TLC checks over a grid of parameters that the cloud export is a strict prefix of the secret export, contains no secret-key section and has the binary size given by the formula. On the real library, key sets generated by the real generator "
              "(small custom sets with n >= 32 and the default sets) are exported on both transports: the call sequence must be exactly Serial!ExpCloud (nothing appended or interleaved), the binary size must equal the formula, the cloud bytes must be a byte prefix of the secret bytes, "
              "the secret export must add exactly the LWE-key and TGSW-key sections, the LWE key bits and ring key coefficients must not occur in the cloud bytes in the int32 encoding the library uses nor byte-per-bit / bit-packed (a control search finds them in the secret export), "
-             "and importing the cloud bytes consumes exactly them and yields a key that has both evaluation keys.",
+             "and importing the cloud bytes consumes exactly them and yields a key that has both evaluation keys. The text part of an export is found in the bytes (BEGIN/END spans), not by write call. Three transports are observed: streams, FILE with secret before cloud, and FILE with both files open at once (cloud first, closed last); the cloud key is also exported while another thread exports the secret key set, and must have the bytes of the sequential export. A larger odd-sized set (n = 887, k = 2, l = 1) joins the small custom sets.",
         note="'Contains no secret' is decided for the encodings searched; an arbitrary transformation of the key hidden in the mask coefficients is outside any byte search (the call-level grammar leaves no room for extra bytes, which bounds this).",
         design="§6 C17"),
     "C18": dict(
@@ -148,7 +148,7 @@ CHECKS = {
              "'one shared processor', 'twiddle tables published once and freed by the processor that built them' (TablesAlive) and 'evaluation temporaries shared by all callers' (Deterministic) are rejected. On the real library 1..64 threads (oversubscribed, random yields, created and destroyed in rounds, four different histories per thread, one thread generating keys meanwhile; in every other run the library's first user is a helper thread that generates the key, computes the sequential reference and exits before any worker starts) evaluate gates and a "
              "1/4-message bootstrapping with one shared cloud key; hooks (guard TFHE_VERIF) report processor construction/destruction, which processor and scratch buffer each thread ran its transforms on, and the planner critical sections, ordered by a global atomic counter. "
              "TLC requires that every thread used only the processor it constructed itself (identity, not timing), that every planner call was made by the holder of the mutex, that joined threads' processors were destroyed, and that every output equals the memoised output "
-             "of the same (operation, key, inputs) on any other thread, after any history, and in the sequential reference run.",
+             "of the same (operation, key, inputs) on any other thread, after any history, and in the sequential reference run. The evaluation mix includes the coefficient-domain bootstrapping (tGswExternMulToTLwe / tfhe_blindRotate), with its sequential reference.",
         note="Exhaustive for the model; sampled schedules for the code (quick: spqlios-fma, nayuki-portable, fftw; thorough: five back-ends + debug builds). Data races that change neither identities nor results are not observable this way.",
         design="§6 C06"),
     "C04": dict(
@@ -159,7 +159,7 @@ CHECKS = {
              "+mu iff the rounded phase p lies in [0,N), that the key-switched result has the same phase, and that blind-rotate-and-extract with an arbitrary test polynomial returns the p-th coefficient of its anticyclic extension (a design with the test vector rotated "
              "the wrong way is rejected). Key material of the instance is then dumped by TLC and loaded into the real structures through the two embeddings; the real tfhe_bootstrap_woKS_FFT / _FFT / coefficient-domain variants and tfhe_blindRotateAndExtract(_FFT) run on the embedded inputs "
              "and TLC recomputes the model for every row and compares the observed phase under the embedded model keys within 256 units of 2^-32. At full size (N = 1024) on trivial key material, where the model state is only p, all 2N rounded phases, both rounding edges, masks steering p next to the "
-             "sign boundaries, n in {1,2,8,630,1030 > N}, k in {1,2} and several (l,Bgbit) are swept; TLC recomputes p with the 32-bit modulus switch and requires +mu iff p in [0,N) and an untouched (zero) output mask.",
+             "sign boundaries, n in {1,2,8,630,1030 > N}, k in {1,2} and several (l,Bgbit) are swept; TLC recomputes p with the 32-bit modulus switch and requires +mu iff p in [0,N) and an untouched (zero) output mask. At full size with keys from the library's generator (uniform masks) the same rule on the rounded phase is checked under layouts up to Bgbit = 16 and k = 2 (rows 'real', 2^26-unit region with the stated noise budget), and the trivial-key sweep is repeated as a sequence of seven configurations in one process with the parameter objects re-initialised in the same storage.",
         note="Defect D3 (scratch array sized by N instead of n: heap corruption at n = 1030) was found by the full-size sweep and repaired. Real noisy keys at the real parameters are covered at the phase level by C01/C02. Inputs reaching through the ring embedding lie on the 2N' grid.",
         design="§6 C04"),
     "C09": dict(
@@ -168,7 +168,7 @@ CHECKS = {
         text="TLC checks on the reduced instances that phase(ExtProd(TGSW(m), c)) = m * phase(c) exactly for m in {0, 1, -1, X^j (every j), a small-norm polynomial}, every value and position of a chosen body coefficient and three mask sets, for k = 1 and 2, and that blind rotation "
              "multiplies the accumulator phase by X^(sum bara_i s_i) for exponent vectors incl. 0, 1, N'-1, N', N'+1, 2N'-1 entries. The TGSW samples, TLWE samples and bootstrapping key of the instance are embedded into the real structures; tGswExternMulToTLwe, tGswFFTExternMulToTLwe, tGswExternProduct, "
              "tfhe_blindRotate, tfhe_blindRotate_FFT (whole and one key element at a time) run on them; TLC recomputes the model per row and requires every coefficient of the observed phase on the embedded sub-ring to match within 256 units of 2^-32 and nothing to leak outside the sub-ring. "
-             "Since FFT images are produced by the real tGswToFFTConvert from the coefficient-domain samples, agreement of both variants with the same model shows the FFT key is a faithful image.",
+             "Since FFT images are produced by the real tGswToFFTConvert from the coefficient-domain samples, agreement of both variants with the same model shows the FFT key is a faithful image. At full size, noiseless TGSW encryptions of +-X^j with uniform masks are multiplied (FFT in place, coefficient domain in place, coefficient domain into a separate result) with TLWE samples with random and extreme coefficients under seven (thorough: twelve) layouts incl. Bgbit = 16, l*Bgbit = 32, k = 2; TLC checks phase(product) = +-X^j phase(sample) at sampled positions within the analytic bound (decomposition + TGSW row noise + FFT). The reduced instance with three key elements is replayed one key element at a time, and one instance is replayed by four threads at once.",
         note="The noisy-row clause (statistical bound) is observed through the gate-output statistics of C02, not here. Exactness relies on LL*BGB = W in the replay instances (no truncation).",
         design="§6 C09"),
     "C10": dict(
@@ -189,7 +189,7 @@ CHECKS = {
              "and hashes of arguments and output. TLC requires the output and next token to be a function of (call, token, arguments), the token to advance, outputs from different tokens to differ, and re-seeding to be a function of the seed -- so a second randomness source, "
              "state surviving a re-seed, or a reused mask are rejected. Distribution: phase errors (computed with the secret keys) of fresh LWE/TLWE/TGSW samples for alpha in {2^-30,...,2^-5, 0}, of every non-zero-digit row of the generated key-switching key and of sampled bootstrapping-key rows "
              "(x1024 coefficients) for both default sets generated in one process are streamed in units of alpha/64; TLC accumulates n, sum, sum of squares, max per stream and accepts iff sd = 64 within 8 estimator sigma plus the 2^-32 discretisation (both sides), |mean| <= 8 sigma/sqrt(n), "
-             "max < 10 sigma, the mask top-bits histogram is uniform within 8 binomial sigma, alpha = 0 gives exactly zero error, key bits are balanced, and digit-0 key-switching rows are exactly trivial.",
+             "max < 10 sigma, the mask top-bits histogram is uniform within 8 binomial sigma, alpha = 0 gives exactly zero error, key bits are balanced, and digit-0 key-switching rows are exactly trivial. Every mask is also compared coordinate by coordinate with the previous one (a repeated coordinate has probability 2^-32), for LWE dimensions 1, 7, 64, 501, 631, for lweSymEncryptWithExternalNoise, and for a key-switching key with odd output dimension from the public generator.",
         note="Statistical acceptance, not proof (false-alarm probability < 1e-14 per statistic; a 15 % change of a key row noise level is detected at the quick sample sizes). Distribution shape beyond two moments, maximum and a coarse histogram is not decided.",
         design="§6 C07"),
     "C16": dict(
@@ -214,7 +214,7 @@ CHECKS = {
         technique="Cross-configuration conformance replay: one driver compiled as C99 and as C++11 against each of the ten library builds, exported-symbol tables, and a C99 link test, validated by a TLA+ memo specification (Trace_Compat)",
         text="The check prints, through a C99 and a C++11 compilation of the same driver, sizeof and offsetof of every field of the 20 public structures and the observations of one seeded API behaviour (key generation, encryption, a gate, decryption, reads of struct fields through the headers, export of the cloud key); "
              "it extracts the exported symbols of the five variants x two builds with nm, the functions the headers declare to a C99 compiler, and links a C99 program referencing every exported API function against every variant. TLC validates the event stream against a memo specification: layouts identical in both views, "
-             "portable observations identical across all variants and views, back-end dependent ones identical across the views of a variant, no variant missing a function another one exports, no API function exported only with C++ linkage, every link succeeds.",
+             "portable observations identical across all variants and views, back-end dependent ones identical across the views of a variant, no variant missing a function another one exports, no API function exported only with C++ linkage, every link succeeds. The driver also calls the public polynomial / Lagrange API (MultFFT, AddMulRFFT, SubMulRFFT, LagrangeHalfCPolynomialMul / AddMul / SubMul / AddTo / AddTorusConstant with the transforms) on inputs whose exact results lie on a 2^16 grid; the results rounded to that grid are portable observations across all ten builds and both views.",
         note="Conformance testing across configurations with very little specification content; level 'other'. The literal symbol-table and header-compilation clauses are observed through compilers and nm, which is outside what a TLA+ specification can derive.",
         design="§6 C20, §7"),
 }
